@@ -3,4 +3,7 @@ def setup(chk):
     chk.add_tu('C04x.cpp')   # error categories on single-defect inputs
     chk.extra_evidence.update({'bounds_text': 'every core-pool type x enumerated length N (quick N in {1,2,3,5,10}, tables up to 6; thorough every N up to 16 / 12): ALL byte strings of that length through the library decoder and the independent reference decoder: accept/reject, value, consumed; error categories: 21 single-defect harnesses (structure prefix / member count / BIN-vs-ARY / fixed array length / wider integer class / signedness / truncation; tuple, pair, array element counts; logical-buffer capacity and element-size multiple; variant index; every prefix byte for 7 scalar destinations) with symbolic values and symbolic defect parameters', 'outside_bounds': ['heap types, maps', 'byte strings longer than the enumerated N', 'defect sites other than the 21 listed']})
     if chk.tier == 'thorough':
-        chk.add_tu('C04t.cpp')
+        import glob, os
+        here = os.path.dirname(os.path.dirname(os.path.abspath(__file__)))
+        for f in sorted(glob.glob(os.path.join(here, 'h/C04t*.cpp'))):
+            chk.add_tu(os.path.basename(f))
